@@ -1,6 +1,7 @@
 import OVM.Kernel.Lookup
 import OVM.Refine.Inv
 import OVM.Refine.LookupLemmas
+import OVM.Refine.ReachLookups
 /-
   C10 — lookup queries are sound and complete.
   Proved here for every state satisfying the cache invariant (lookups only read caches and
@@ -28,6 +29,11 @@ import OVM.Refine.LookupLemmas
     `findHalfedgeInCell_mem_closed`.
   * `find_halfface_extensive`: `findHalffaceExtensive_sound` (the whole vertex cycle, up to rotation),
     `findHalffaceExtensive_complete_partial`.
+  Third part (last section, lemmas in OVM/Refine/FaceLoopStep.lean, OVM/Refine/ReachLookups.lean): ON REACHABLE STATES.
+  `lookups_on_reachable_states` — after every history of valid calls from the empty mesh that respects `Global.LoopOK`
+  every lookup is sound and complete as bundled in `Lookups`, with hypotheses on the ARGUMENTS only (`uniqHe`: F11;
+  duplicate-free halfface or vertex tuple; live cell); `cells_closed_on_reachable_states`,
+  `lookups_in_closed_cells_on_reachable_states` — cells built with topology check stay `ClosedSurface` along histories.
 -/
 namespace OVM.Props.C10
 open OVM OVM.Kernel
@@ -513,5 +519,223 @@ theorem findHalfedgeInCell_mem_closed (k : Kernel) (a b c r : Nat) (hcl : Closed
 example : ClosedSurface twoTets (twoTets.cellAt 0) ∧ twoTets.findHalfedgeInCell 0 3 0 = some 9 ∧
     9 ∈ twoTets.cellHalfedges (twoTets.cellAt 0) ∧ twoTets.adjHalffaceInCell 1 1 = some 2 ∧
     twoTets.nextHe (opp 1) 2 = some 6 := by decide
+
+/-! ## On reachable states
+
+Every STATE hypothesis of the theorems above is discharged after every history of valid calls from the empty mesh
+(`Global.HistoryOK`: the argument conditions of `Global.OpOK`, Props/C01Reach) that additionally respects `Global.LoopOK`
+at every call — an UNCHECKED `add_face(halfedges)` / `set_face` is handed a closed loop and `set_edge` is not applied to an
+edge of a live face; nothing is asked of `add_face` with topology check, `add_face(vertices)` or any deleting / swapping /
+collecting / mode call (OVM/Refine/FaceLoopStep.lean, OVM/Refine/ReachLookups.lean):
+`CacheInv`, `oneCell`, `CellExclusive`, range conditions ⇐ `GInv`;  `HfCyclic` ⇐ `FaceLoop`.
+What REMAINS, and is a hypothesis on the ARGUMENTS (each with a witness that it is needed):
+  * `uniqHe k a b` — no parallel duplicate of the halfedge `a→b` (completeness of `find_halfface(vertices)` and
+    `find_halfface_extensive`; parallel duplicates are reachable through `add_edge(a,b,allowDuplicates)`; finding F11,
+    witnesses after `findHalffaceV_complete_partial`);
+  * `(k.hfHes hf).Nodup` — the halfface sought does not run through a halfedge twice (completeness of
+    `find_halfface_in_cell` in the vertex form and of `find_halfface_extensive`); implied by pairwise distinct vertices
+    (`Lookups.extensive_complete_distinct`: the requested tuple itself is duplicate-free) and by the closed-surface check
+    of `add_cell` for the halffaces of a cell (`Global.nodup_hes_of_closedSurface`);
+  * `ClosedSurface k (cellAt c)` — "closed cell" in the quantifier of the property, for `find_halfedge_in_cell` to return a
+    halfedge OF the cell (`findHalfedgeInCell_mem_closed`); kept along histories whose cells are built with topology
+    check: `Global.CellsClosed`, `cells_closed_on_reachable_states` below;
+  * the live cell `c`, valid handles `a < nV`, `he0 < nHE` (asserted by the C++), the bottom-up kind the lookup reads. -/
+
+open OVM.Kernel.Global (GInv FaceLoop LoopOK LoopHistory ginv_reachable faceLoop_reachable historyOK_of_B
+  loopHistory_of_B CellsClosed SurfOK SurfHistory cellsClosed_reachable surfHistory_of_B)
+
+/-- **every lookup of C10, on one state**: what each function returns, with only argument-level hypotheses left -/
+structure Lookups (k : Kernel) : Prop where
+  /-- `find_halfedge(a,b)`: a returned halfedge is a live halfedge `a→b`; `Invalid` only if there is none -/
+  halfedge : k.vBU = true → ∀ a b, a < k.nV →
+    (∀ h, k.findHalfedge a b = some h → h < k.nHE ∧ k.liveE (eOf h) = true ∧ k.fromV h = a ∧ k.toV h = b) ∧
+    (k.findHalfedge a b = none → ¬ ∃ h, h < k.nHE ∧ k.liveE (eOf h) = true ∧ k.fromV h = a ∧ k.toV h = b)
+  /-- `find_halfface(he0, he1)`: a returned halfface is live and holds both halfedges; `Invalid` only if there is none -/
+  halfface_hes : k.eBU = true → ∀ he0 he1, he0 < k.nHE →
+    (∀ hf, k.findHalffaceHes he0 he1 = some hf →
+      hf < k.nHF ∧ k.liveF (eOf hf) = true ∧ he0 ∈ k.hfHes hf ∧ he1 ∈ k.hfHes hf) ∧
+    (k.findHalffaceHes he0 he1 = none →
+      ¬ ∃ hf, hf < k.nHF ∧ k.liveF (eOf hf) = true ∧ he0 ∈ k.hfHes hf ∧ he1 ∈ k.hfHes hf)
+  /-- `find_halfface(v0,v1,v2,…)`: sound; complete when `v0→v1` and `v1→v2` have no parallel duplicate (F11) -/
+  halfface_verts : k.vBU = true → k.eBU = true → ∀ v0 v1 v2 rest, v0 < k.nV → v1 < k.nV →
+    (∀ hf, k.findHalffaceV (v0 :: v1 :: v2 :: rest) = some hf →
+      k.liveF (eOf hf) = true ∧ (∃ a ∈ k.hfHes hf, k.fromV a = v0 ∧ k.toV a = v1) ∧
+      (∃ b ∈ k.hfHes hf, k.fromV b = v1 ∧ k.toV b = v2)) ∧
+    (uniqHe k v0 v1 = true → uniqHe k v1 v2 = true →
+      (∃ hf, k.liveF (eOf hf) = true ∧ (∃ a ∈ k.hfHes hf, k.fromV a = v0 ∧ k.toV a = v1) ∧
+        (∃ b ∈ k.hfHes hf, k.fromV b = v1 ∧ k.toV b = v2)) →
+      ∃ hf', k.findHalffaceV (v0 :: v1 :: v2 :: rest) = some hf')
+  /-- `find_halfface_in_cell(vs, c)` for a live cell `c`: a returned halfface is one of the cell and has `v0 v1 v2` as
+      three cyclically consecutive vertices; `Invalid` exactly when no halfface of the cell runs `v0→v1→v2`; found
+      whenever a halfface of the cell without a repeated halfedge has them as consecutive vertices -/
+  halfface_in_cell : k.fBU = true → ∀ c, k.liveC c = true → ∀ v0 v1 v2 rest,
+    (∀ hf, k.findHalffaceInCell (v0 :: v1 :: v2 :: rest) c = some hf →
+      hf ∈ k.cellAt c ∧ RunsThrough k hf v0 v1 v2 ∧
+      ∃ i, i < (k.hfHes hf).length ∧ (k.hfVerts hf)[i]? = some v0 ∧
+        (k.hfVerts hf)[(i + 1) % (k.hfHes hf).length]? = some v1 ∧
+        (k.hfVerts hf)[(i + 2) % (k.hfHes hf).length]? = some v2) ∧
+    (k.findHalffaceInCell (v0 :: v1 :: v2 :: rest) c = none ↔ ¬ ∃ hf ∈ k.cellAt c, RunsThrough k hf v0 v1 v2) ∧
+    (∀ hf i, hf ∈ k.cellAt c → (k.hfHes hf).Nodup → i < (k.hfHes hf).length → (k.hfVerts hf)[i]? = some v0 →
+      (k.hfVerts hf)[(i + 1) % (k.hfHes hf).length]? = some v1 →
+      (k.hfVerts hf)[(i + 2) % (k.hfHes hf).length]? = some v2 →
+      ∃ hf', k.findHalffaceInCell (v0 :: v1 :: v2 :: rest) c = some hf')
+  /-- `find_halfface_extensive(vs)`: a returned halfface is live and its vertex cycle read from some position is exactly
+      `vs`; found when `v0→v1` has no parallel duplicate (F11) and the halfface repeats no halfedge -/
+  extensive : k.vBU = true → k.eBU = true → ∀ v0 v1 rest, v0 < k.nV →
+    (∀ hf, k.findHalffaceExtensive (v0 :: v1 :: rest) = some hf →
+      hf < k.nHF ∧ k.liveF (eOf hf) = true ∧
+      ∃ i, i < (k.hfHes hf).length ∧ (k.hfVerts hf).rotateLeft i = v0 :: v1 :: rest) ∧
+    (uniqHe k v0 v1 = true → ∀ hf j, k.liveF (eOf hf) = true → (k.hfHes hf).Nodup → j < (k.hfHes hf).length →
+      (k.hfVerts hf).rotateLeft j = v0 :: v1 :: rest → ∃ hf', k.findHalffaceExtensive (v0 :: v1 :: rest) = some hf')
+  /-- … in particular for every duplicate-free vertex tuple -/
+  extensive_complete_distinct : k.vBU = true → k.eBU = true → ∀ v0 v1 rest, v0 < k.nV → (v0 :: v1 :: rest).Nodup →
+    uniqHe k v0 v1 = true → ∀ hf j, k.liveF (eOf hf) = true → j < (k.hfHes hf).length →
+      (k.hfVerts hf).rotateLeft j = v0 :: v1 :: rest → ∃ hf', k.findHalffaceExtensive (v0 :: v1 :: rest) = some hf'
+  /-- `get_halfface_vertices(hf, vh)` and `(hf, heh)`: rotation of the vertex cycle to the requested start -/
+  vertices_from : ∀ hf v,
+    (∃ i, k.hfVertsFrom hf v = (k.hfVerts hf).rotateLeft i) ∧ (k.hfVertsFrom hf v).Perm (k.hfVerts hf) ∧
+    (v ∈ k.hfVerts hf → (k.hfVertsFrom hf v).head? = some v) ∧ (v ∉ k.hfVerts hf → k.hfVertsFrom hf v = k.hfVerts hf) ∧
+    (∀ he ∈ k.hfHes hf, (hfVertsFromHe k hf he).head? = some (k.fromV he))
+  /-- `find_halfedge_in_cell(a,b,c)`: sound and complete; in a closed cell the result is a halfedge of the cell -/
+  halfedge_in_cell : ∀ a b c,
+    (∀ r, k.findHalfedgeInCell a b c = some r →
+      k.fromV r = a ∧ k.toV r = b ∧ (∃ hf ∈ k.cellAt c, r ∈ k.hfHes hf ∨ opp r ∈ k.hfHes hf) ∧
+      (ClosedSurface k (k.cellAt c) → r ∈ k.cellHalfedges (k.cellAt c))) ∧
+    (k.findHalfedgeInCell a b c = none ↔
+      ¬ ∃ hf ∈ k.cellAt c, ∃ h ∈ k.hfHes hf, (k.fromV h = a ∧ k.toV h = b) ∨ (k.fromV h = b ∧ k.toV h = a))
+  /-- `n_vertices_in_cell(c)` for a live cell: the number of distinct vertices of its halffaces -/
+  n_vertices : ∀ c, k.liveC c = true → ∀ l : List Nat, l.Nodup →
+    (∀ v, v ∈ l ↔ ∃ hf ∈ k.cellAt c, v ∈ k.hfVerts hf) → k.nVerticesInCell c = l.length
+  /-- `is_incident(face, edge)` -/
+  incident : ∀ f e, k.isIncident f e = true ↔ ∃ h ∈ k.faceAt f, eOf h = e
+
+theorem liveF_lt_hf {k : Kernel} {hf : Nat} (h : k.liveF (eOf hf) = true) : hf < k.nHF := by
+  unfold liveF at h; simp at h
+  unfold nHF nF eOf at *; omega
+
+/-- every lookup on a state that satisfies the global invariant and whose live faces are closed loops -/
+theorem lookups_of_inv (k : Kernel) (hi : GInv k) (hq : FaceLoop k) : Lookups k := by
+  have hI := hi.wf.cache
+  have hcyc : ∀ hf, k.liveF (eOf hf) = true → HfCyclic k hf := fun hf hl => Global.hfCyclic_of_faceLoop hq hl
+  refine ⟨?_, ?_, ?_, ?_, ?_, ?_, ?_, ?_, ?_, ?_⟩
+  · intro hb a b ha
+    exact ⟨fun h hf => findHalfedge_sound k hI hb a b h ha hf, fun hn => findHalfedge_complete k hI hb a b ha hn⟩
+  · intro hb he0 he1 h0
+    exact ⟨fun hf hfd => findHalffaceHes_sound k hI hb he0 he1 hf h0 hfd,
+      fun hn => findHalffaceHes_complete k hI hb he0 he1 h0 hn⟩
+  · intro hv he v0 v1 v2 rest h0 h1
+    refine ⟨fun hf hfd => findHalffaceV_sound k hI hv he v0 v1 v2 rest hf h0 h1 hfd, ?_⟩
+    rintro hu0 hu1 ⟨hf, hl, ⟨a, ha, ha3, ha4⟩, ⟨b, hb, hb3, hb4⟩⟩
+    obtain ⟨ha1, ha2⟩ := Global.hf_he_live hi hl ha
+    obtain ⟨hb1, hb2⟩ := Global.hf_he_live hi hl hb
+    exact findHalffaceV_complete_partial k hI hv he v0 v1 v2 rest h0 h1 hu0 hu1 hf a b (liveF_lt_hf hl) hl
+      ha ha1 ha2 ha3 ha4 hb hb1 hb2 hb3 hb4
+  · intro hb c hl v0 v1 v2 rest
+    have hx := Global.cellExclusive_of_ginv hi hl
+    have hcc := Global.cellCyclic_of_ginv hi hq hl
+    refine ⟨?_, findHalffaceInCell_none_iff k hI hb c v0 v1 v2 rest hx, ?_⟩
+    · intro hf h
+      have s := findHalffaceInCell_sound k hI hb c v0 v1 v2 rest hf hx h
+      exact ⟨s.1, s.2, runsThrough_verts k hf v0 v1 v2 (hcc hf s.1) s.2⟩
+    · intro hf i hm hn hlt h0 h1 h2
+      exact findHalffaceInCell_complete_verts_partial k c v0 v1 v2 rest hf i hm (hcc hf hm) hn hlt h0 h1 h2
+  · intro hv he v0 v1 rest h0
+    refine ⟨fun hf h => findHalffaceExtensive_sound k hI hv he v0 v1 rest hf h0 h, ?_⟩
+    intro hu hf j hl hn hj hrot
+    obtain ⟨a1, a2⟩ := Global.hf_he_live hi hl (List.getElem_mem hj)
+    exact findHalffaceExtensive_complete_partial k hI hv he v0 v1 rest h0 hu hf (liveF_lt_hf hl) hl hn (hcyc hf hl) j hj
+      hrot a1 a2
+  · intro hv he v0 v1 rest h0 hnd hu hf j hl hj hrot
+    have hn : (k.hfHes hf).Nodup := Global.nodup_hes_of_nodup_verts (Global.nodup_verts_of_rotation hrot hnd)
+    obtain ⟨a1, a2⟩ := Global.hf_he_live hi hl (List.getElem_mem hj)
+    exact findHalffaceExtensive_complete_partial k hI hv he v0 v1 rest h0 hu hf (liveF_lt_hf hl) hl hn (hcyc hf hl) j hj
+      hrot a1 a2
+  · intro hf v
+    have := hfVertsFrom_spec k hf v
+    exact ⟨this.1, this.2.1, this.2.2.1, this.2.2.2.1, (hfVertsFromHe_spec k hf).1⟩
+  · intro a b c
+    refine ⟨fun r h => ?_, (findHalfedgeInCell_spec k a b c).2⟩
+    have := (findHalfedgeInCell_spec k a b c).1 r h
+    exact ⟨this.1, this.2.1, this.2.2, fun hcl => findHalfedgeInCell_mem_closed k a b c r hcl h⟩
+  · intro c hl l hn hv
+    exact (nVerticesInCell_spec k c l hn).2 (Global.cellCyclic_of_ginv hi hq hl) hv
+  · exact fun f e => isIncident_iff k f e
+
+/-- **C10 on every reachable state**: after every history of valid calls (`Global.HistoryOK`) from the empty mesh that
+    respects `Global.LoopOK` (unchecked `add_face(halfedges)` / `set_face` get closed loops, no `set_edge` on an edge of
+    a live face) — all deletion modes, all bottom-up configurations — every lookup is sound and complete as stated in
+    `Lookups`; the only hypotheses left are on the arguments (`uniqHe`: F11; duplicate-free halfface; closed cell) -/
+theorem lookups_on_reachable_states (ops : List Op) (hr : Global.HistoryOK {} ops) (hc : LoopHistory {} ops) :
+    Lookups (run {} ops) :=
+  lookups_of_inv _ (ginv_reachable ops hr) (faceLoop_reachable ops hr hc)
+
+/-- from any state satisfying the invariants (generated, loaded, …) -/
+theorem lookups_after_history (k : Kernel) (ops : List Op) (hi : GInv k) (hq : FaceLoop k) (hr : Global.HistoryOK k ops)
+    (hc : LoopHistory k ops) : Lookups (k.run ops) :=
+  lookups_of_inv _ (Global.ginv_run k ops hi hr) (Global.faceLoop_run k ops hi hq hr hc)
+
+/-- **closed cells stay closed**: after every history of valid calls whose cells are built by `add_cell` WITH topology
+    check (or whose unchecked `add_cell` / `set_cell` get closed surfaces) and that does not `set_face` a face of a live
+    cell (`Global.SurfOK`, decidable), every live cell is a `ClosedSurface` — through all deletions, swaps, garbage
+    collections and mode switches (`Global.stable_cellsClosed`) -/
+theorem cells_closed_on_reachable_states (ops : List Op) (hr : Global.HistoryOK {} ops) (hs : SurfHistory {} ops) :
+    ∀ c, (run {} ops).liveC c = true → ClosedSurface (run {} ops) ((run {} ops).cellAt c) :=
+  cellsClosed_reachable ops hr hs
+
+/-- the lookups inside a cell on such states ("over closed cells" in the property's quantifier): no hypothesis on the
+    halfface is left — no halfface of the cell repeats a halfedge, `find_halfface_in_cell` finds every halfface of the
+    cell that has `v0 v1 v2` as consecutive vertices, and `find_halfedge_in_cell` returns a halfedge of the cell -/
+theorem lookups_in_closed_cells_on_reachable_states (ops : List Op) (hr : Global.HistoryOK {} ops)
+    (hc : LoopHistory {} ops) (hs : SurfHistory {} ops) :
+    let k := run {} ops
+    ∀ c, k.liveC c = true →
+      (∀ hf ∈ k.cellAt c, (k.hfHes hf).Nodup ∧ HfCyclic k hf) ∧
+      (∀ v0 v1 v2 rest hf i, hf ∈ k.cellAt c → i < (k.hfHes hf).length → (k.hfVerts hf)[i]? = some v0 →
+        (k.hfVerts hf)[(i + 1) % (k.hfHes hf).length]? = some v1 →
+        (k.hfVerts hf)[(i + 2) % (k.hfHes hf).length]? = some v2 →
+        ∃ hf', k.findHalffaceInCell (v0 :: v1 :: v2 :: rest) c = some hf') ∧
+      (∀ a b r, k.findHalfedgeInCell a b c = some r → r ∈ k.cellHalfedges (k.cellAt c)) := by
+  intro k c hl
+  have hi : GInv k := ginv_reachable ops hr
+  have hq : FaceLoop k := faceLoop_reachable ops hr hc
+  have hcl : ClosedSurface k (k.cellAt c) := cellsClosed_reachable ops hr hs c hl
+  have hn := Global.nodup_hes_of_closedSurface hcl
+  have hcc := Global.cellCyclic_of_ginv hi hq hl
+  exact ⟨fun hf hm => ⟨hn hf hm, hcc hf hm⟩,
+    fun v0 v1 v2 rest hf i hm hlt h0 h1 h2 =>
+      findHalffaceInCell_complete_verts_partial k c v0 v1 v2 rest hf i hm (hcc hf hm) (hn hf hm) hlt h0 h1 h2,
+    fun a b r h => findHalfedgeInCell_mem_closed k a b c r hcl h⟩
+
+/-! ### non-vacuity -/
+
+/-- two tetrahedra glued along a face, built through `add_face(vertices)` and checked `add_cell`, a dangling edge, one
+    swap of each kind, and a DEFERRED `delete_face` of a face of the second tetrahedron (the face and the cell stay
+    stored, flagged) -/
+def lookupOps : List Op :=
+  [.addNVertices 6, .addFaceV [0,1,2], .addFaceV [0,3,1], .addFaceV [1,3,2], .addFaceV [0,2,3],
+   .addCell true [0,2,4,6],
+   .addFaceV [0,1,4], .addFaceV [1,2,4], .addFaceV [2,0,4], .addCell true [1,8,10,12],
+   .addEdge 4 5 false, .swapVertex 1 5, .swapEdge 0 3, .swapFace 1 2, .swapCell 0 1,
+   .deleteFace 6]
+
+set_option maxRecDepth 1000000 in
+/-- the history is valid and respects `LoopOK` at every call (decided), so the bundle applies to its end state; there:
+    cell 1 (the first tetrahedron after the swap) is live, cell 0 is flagged; `find_halfedge`, `find_halfface`,
+    `find_halfface_in_cell`, `find_halfface_extensive` answer, and the answers are instances of the bundle -/
+example :
+    let k := run {} lookupOps
+    Lookups k ∧ k.liveC 1 = true ∧ k.liveC 0 = false ∧ k.needsGC = true ∧
+    k.findHalfedge 0 5 = some 6 ∧ k.findHalfedge 0 1 = none ∧ k.findHalffaceV [0, 5, 2] = some 0 ∧
+    k.findHalffaceInCell [2, 5, 0] 1 = none ∧ k.findHalffaceInCell [0, 5, 2] 1 = some 0 ∧
+    k.findHalffaceExtensive [5, 2, 0] = some 0 ∧ k.nVerticesInCell 1 = 4 ∧
+    ClosedSurface k (k.cellAt 1) ∧ k.findHalfedgeInCell 5 0 1 = some 7 ∧ 7 ∈ k.cellHalfedges (k.cellAt 1) := by
+  intro k
+  have hr : Global.HistoryOK {} lookupOps := historyOK_of_B {} lookupOps (by decide)
+  have hc : LoopHistory {} lookupOps := loopHistory_of_B {} lookupOps (by decide)
+  have hs : SurfHistory {} lookupOps := surfHistory_of_B {} lookupOps (by decide)
+  have hcell := lookups_in_closed_cells_on_reachable_states lookupOps hr hc hs 1 (by decide)
+  exact ⟨lookups_on_reachable_states lookupOps hr hc,
+    by decide, by decide, by decide, by decide, by decide, by decide, by decide, by decide, by decide, by decide,
+    cells_closed_on_reachable_states lookupOps hr hs 1 (by decide), by decide, hcell.2.2 5 0 7 (by decide)⟩
 
 end OVM.Props.C10
